@@ -95,3 +95,255 @@ def exc_name(exc):
     if eid is not None:
         return ["user", eid]
     return ["lib", type(exc).__name__]
+
+
+# ---------------------------------------------------------------------------------------------
+# user items
+
+
+class Item:
+    """User item: identity `id`; ordering, equality, hashing and truthiness by `key`."""
+
+    __slots__ = ("id", "key", "__weakref__")
+
+    def __init__(self, id, key):
+        self.id, self.key = id, key
+
+    def __lt__(self, other):
+        return self.key < other.key
+
+    def __gt__(self, other):
+        return self.key > other.key
+
+    def __le__(self, other):
+        return self.key <= other.key
+
+    def __ge__(self, other):
+        return self.key >= other.key
+
+    def __eq__(self, other):
+        return isinstance(other, Item) and self.key == other.key
+
+    def __ne__(self, other):
+        return not self.__eq__(other)
+
+    def __hash__(self):
+        return hash(self.key)
+
+    def __bool__(self):
+        return self.key != 0
+
+    def __repr__(self):
+        return "o%dk%d" % (self.id, self.key)
+
+
+def canon(v):
+    """Canonical JSON form of a value flowing out of a tool."""
+    if isinstance(v, Item):
+        return ["o", v.id]
+    if isinstance(v, bool):
+        return ["b", v]
+    if isinstance(v, int):
+        return ["i", v]
+    if v is None:
+        return ["n"]
+    if isinstance(v, tuple):
+        return ["t"] + [canon(x) for x in v]
+    if isinstance(v, list):
+        return ["l"] + [canon(x) for x in v]
+    if isinstance(v, str):
+        return ["s", v]
+    if isinstance(v, Fill):
+        return ["fill"]
+    return ["?", type(v).__name__]
+
+
+class Fill:
+    """distinguished fillvalue object"""
+
+    def __repr__(self):
+        return "FILL"
+
+
+FILL = Fill()
+
+# ---------------------------------------------------------------------------------------------
+# instrumented sources
+#
+# script: list of ("item", obj) | ("raise", eid); after the script the source is exhausted.
+# Every source appends to `log`: ("pull", name), ("item", name, canon), ("end", name),
+# ("srcerr", name, eid), ("close", name).  `state` records pulls / ended / failed / closes.
+
+SYNC_KINDS = ("list", "seq", "iter")
+ASYNC_KINDS = ("agen", "aobj", "aobj_nc")
+ALL_KINDS = SYNC_KINDS + ASYNC_KINDS
+
+
+class SrcState:
+    __slots__ = ("name", "kind", "pulls", "ended", "failed", "closes", "obj", "started")
+
+    def __init__(self, name, kind):
+        self.name, self.kind = name, kind
+        self.pulls = self.ended = self.failed = self.closes = 0
+        self.obj = None
+        self.started = False
+
+    def released(self):
+        """closed or run to exhaustion (C04's predicate), for async kinds"""
+        if self.kind == "agen":
+            return self.obj.ag_frame is None
+        return self.closes > 0 or self.ended > 0
+
+    def summary(self):
+        return {"pulls": self.pulls, "ended": self.ended, "failed": self.failed, "closes": self.closes,
+                "released": self.released() if self.kind in ASYNC_KINDS else None}
+
+
+def _respond(script, idx, st, log):
+    """shared body of every __next__/__anext__: returns ('item', obj) | ('end',) | raises"""
+    st.pulls += 1
+    log.append(["pull", st.name])
+    if idx >= len(script):
+        st.ended += 1
+        log.append(["end", st.name])
+        return None
+    tag, val = script[idx]
+    if tag == "raise":
+        st.failed += 1
+        log.append(["srcerr", st.name, val])
+        raise UserExc(val)
+    log.append(["item", st.name, canon(val)])
+    return (val,)
+
+
+class SyncIterSource:
+    """one-shot synchronous iterator"""
+
+    def __init__(self, script, st, log):
+        self.script, self.st, self.log, self.idx, self.dead = script, st, log, 0, False
+
+    def __iter__(self):
+        return self
+
+    def __next__(self):
+        if self.dead:
+            self.st.pulls += 1
+            self.log.append(["pull", self.st.name])
+            self.log.append(["end", self.st.name])
+            raise StopIteration
+        try:
+            r = _respond(self.script, self.idx, self.st, self.log)
+        except UserExc:
+            self.idx += 1
+            raise
+        self.idx += 1
+        if r is None:
+            self.dead = True
+            raise StopIteration
+        return r[0]
+
+
+class SeqSource:
+    """sequence protocol only: __getitem__ with 0.. until IndexError"""
+
+    def __init__(self, script, st, log):
+        self.script, self.st, self.log = script, st, log
+
+    def __getitem__(self, i):
+        r = _respond(self.script, i, self.st, self.log)
+        if r is None:
+            raise IndexError(i)
+        return r[0]
+
+
+class ListSource(list):
+    """a real list (no instrumentation possible on pulls); content = items of the script"""
+
+
+class AObjSource:
+    """class-based async iterator with aclose; `susp` = tokens to suspend with before each reply"""
+
+    def __init__(self, script, st, log, susp=0, close_susp=0):
+        self.script, self.st, self.log, self.idx = script, st, log, 0
+        self.susp, self.close_susp = susp, close_susp
+        self.dead = False
+
+    def __aiter__(self):
+        return self
+
+    async def __anext__(self):
+        self.st.started = True
+        for j in range(self.susp):
+            await Susp(["src", self.st.name, self.st.pulls, j])
+        if self.dead:
+            self.st.pulls += 1
+            self.log.append(["pull", self.st.name])
+            self.log.append(["end", self.st.name])
+            raise StopAsyncIteration
+        try:
+            r = _respond(self.script, self.idx, self.st, self.log)
+        except UserExc:
+            self.idx += 1
+            raise
+        self.idx += 1
+        if r is None:
+            self.dead = True
+            raise StopAsyncIteration
+        return r[0]
+
+    async def aclose(self):
+        for j in range(self.close_susp):
+            await Susp(["close", self.st.name, j])
+        self.st.closes += 1
+        self.dead = True
+        self.log.append(["close", self.st.name])
+
+
+class AObjNoCloseSource:
+    def __init__(self, script, st, log, susp=0):
+        self._inner = AObjSource(script, st, log, susp)
+
+    def __aiter__(self):
+        return self
+
+    def __anext__(self):
+        return self._inner.__anext__()
+
+
+async def _agen_source(script, st, log, susp=0):
+    idx = 0
+    try:
+        while True:
+            st.started = True
+            for j in range(susp):
+                await Susp(["src", st.name, st.pulls, j])
+            r = _respond(script, idx, st, log)   # raises UserExc: generator finishes
+            idx += 1
+            if r is None:
+                return
+            yield r[0]
+    finally:
+        if st.ended == 0 and st.failed == 0:
+            st.closes += 1
+            log.append(["close", st.name])
+
+
+def make_source(kind, script, name, log, susp=0, close_susp=0):
+    """returns (iterable to hand to the library, SrcState)"""
+    st = SrcState(name, kind)
+    if kind == "list":
+        obj = ListSource(v for t, v in script if t == "item")
+    elif kind == "seq":
+        obj = SeqSource(script, st, log)
+    elif kind == "iter":
+        obj = SyncIterSource(script, st, log)
+    elif kind == "agen":
+        obj = _agen_source(script, st, log, susp)
+    elif kind == "aobj":
+        obj = AObjSource(script, st, log, susp, close_susp)
+    elif kind == "aobj_nc":
+        obj = AObjNoCloseSource(script, st, log, susp)
+    else:
+        raise ValueError(kind)
+    st.obj = obj
+    return obj, st
